@@ -20,3 +20,5 @@ for d in sorted(glob.glob('/verif/seeded/%s_m*' % pid)):
                            'tool_trouble': [l for l in out.splitlines() if l.startswith('TOOL-TROUBLE')][:3]}
     json.dump(meta, open(os.path.join(d, 'meta.json'), 'w'), indent=1)
     print('%s: exit=%d violations=%d %s' % (os.path.basename(d), p.returncode, len(vio), 'DETECTED' if p.returncode == 1 else 'MISSED'))
+# leave the evidence file of the property as written by a run on the unchanged tree
+subprocess.run(['./check', pid, '--tier', 'quick'], cwd='/verif', stdout=subprocess.DEVNULL)
